@@ -28,6 +28,8 @@ def plan(tier, seed, jobs):
 
 JSON_OPTS = [
     {},
+    {"indent": None},
+    {"indent": None, "sort_keys": False, "separators": None},
     {"indent": 2, "sort_keys": True},
     {"indent": 0},
     {"indent": "\t", "ensure_ascii": False},
@@ -176,7 +178,7 @@ def run(ctx):
             kind = kinds[idx % 3]
             attrs = c10.small_attrs(rng, n, json_only=True)
             check_one(ctx, lib, rng, par, attrs, kind, {"par": list(par), "kind": kind, "attrs_repr": repr(attrs)})
-    nrand = (8000 if T else 400) // ctx.nshards + 1
+    nrand = (40000 if T else 400) // ctx.nshards + 1
     for r in range(nrand):
         rng = ctx.rng("rand", r)
         n = rng.randint(1, 25)
